@@ -170,3 +170,60 @@ Definition text_ok (st : storage) (refs : list Z) (version : option Z) (langs wi
   (match version with Some v => x_ver t = Some v | None => x_ver t = max_version st end) /\
   (widths <> [] -> exists w, In w widths /\ tw2i (x_width t) <= w) /\
   (lines <> [] -> exists n, In n lines /\ x_nol t <= n).
+
+(* ---------------------------------------------------------------- histories on ONE storage *)
+(* LocalizationStorage.add: self._localized_texts[text.Ref].append(text) on a defaultdict(list) *)
+Fixpoint st_add (t : ltext) (st : storage) : storage :=
+  match st with
+  | [] => [(x_ref t, [t])]
+  | (k, v) :: r => if Z.eqb k (x_ref t) then (k, v ++ [t]) :: r else (k, v) :: st_add t r
+  end.
+
+(* filter_localized_texts reads self._localized_texts[handle] for every requested Ref: on a defaultdict an
+   unknown Ref becomes a key with an empty list *)
+Definition st_touch (r : Z) (st : storage) : storage :=
+  if existsb (fun e => Z.eqb (fst e) r) st then st else st ++ [(r, [])].
+
+Inductive lop :=
+| LAdd (t : ltext)                                                          (* storage.add(text) *)
+| LLangs                                                                    (* GetSupportedLanguages *)
+| LText (refs : list Z) (version : option Z) (langs widths lines : list Z). (* GetLocalizedText *)
+
+Definition lstep (st : storage) (o : lop) : storage :=
+  match o with
+  | LAdd t => st_add t st
+  | LLangs => st
+  | LText refs _ _ _ _ => fold_left (fun s r => st_touch r s) refs st
+  end.
+
+Definition state_after (ops : list lop) : storage := fold_left lstep ops [].
+Definition added (ops : list lop) : list ltext :=
+  flat_map (fun o => match o with LAdd t => [t] | _ => [] end) ops.
+
+(* the answers of a history: one list per query (language ids / ids of the returned texts), each computed from
+   the storage as it is at that moment; nothing is remembered between two queries *)
+Fixpoint run_hist (both_key : ltext -> Z) (ops : list lop) (st : storage) : list (list Z) :=
+  match ops with
+  | [] => []
+  | o :: r =>
+      match o with
+      | LAdd _ => run_hist both_key r (lstep st o)
+      | LLangs => supported_languages st :: run_hist both_key r (lstep st o)
+      | LText refs v langs ws ls =>
+          map x_id (filter_texts st refs v langs ws ls both_key) :: run_hist both_key r (lstep st o)
+      end
+  end.
+
+(* what a GetLocalizedText request without TextWidth / NumberOfLines selects *)
+Definition eff_version (st : storage) (version : option Z) : option Z :=
+  match version with Some v => Some v | None => max_version st end.
+Definition sel_ref (refs : list Z) (t : ltext) : bool :=
+  match refs with [] => true | _ => existsb (Z.eqb (x_ref t)) refs end.
+Definition sel_lang (langs : list Z) (t : ltext) : bool :=
+  match langs with [] => true | _ => existsb (Z.eqb (x_lang t)) langs end.
+Definition text_selected (st : storage) (refs : list Z) (version : option Z) (langs : list Z) (t : ltext) : bool :=
+  sel_ref refs t && sel_lang langs t && opt_eqb (x_ver t) (eff_version st version).
+
+(* well-formed storage: a dict (unique keys) whose entry for Ref r holds texts with that Ref only *)
+Definition st_wf (st : storage) : Prop :=
+  NoDup (map fst st) /\ forall e, In e st -> forall x, In x (snd e) -> x_ref x = fst e.
